@@ -174,7 +174,12 @@ static res_t do_op(rset_t *r, const char *op, char *args)
 		ret = sqfs_dir_reader_get_root_inode(r->dr, &root);
 		if (ret)
 			return mk(ret, 0);
-		ret = sqfs_dir_reader_resolve_path(r->dr, args, root, &out);
+		{
+			/* an allocation of exactly the length of the path: reads behind its end are visible to ASan */
+			char *exact = strdup(args);
+			ret = sqfs_dir_reader_resolve_path(r->dr, exact, root, &out);
+			free(exact);
+		}
 		sqfs_free(root);
 		return mk(ret, ret ? 0 : out);
 	}
@@ -297,6 +302,14 @@ static res_t do_op(rset_t *r, const char *op, char *args)
 				while (got < want) {
 					sqfs_s32 n = sqfs_istream_read(in, buf, (want - got) < sizeof(buf) ? (want - got) : sizeof(buf));
 					if (n < 0) {
+						/* asking the same stream again after a failure must not produce data it never read */
+						const sqfs_u8 *ptr = NULL;
+						size_t avail = 0;
+						int again = in->get_buffered_data(in, &ptr, &avail, 1);
+						if (again == 0 && avail > 0) {
+							printf("MISMATCH stream %s: read fails with %d, asked again the same stream hands out %zu bytes\n", args, (int)n, avail);
+							exit(3);
+						}
 						h = fnv(h, &n, sizeof(n));
 						break;
 					}
